@@ -378,6 +378,10 @@ def gen_newton(rng, i, tier):
     p["via"] = choice(rng, ["newton_solver", "NohBlackBoxEos"]) if p["resid"] == "pressure_noh_residual" \
         else "newton_solver"
     p["pert"] = [uni(rng, 0.85, 1.2) for _ in range(3)]
+    # every other case re-uses an object that was set up for another initial state first (residual:
+    # set_new_initial_conditions; solver: edited initial_conditions + a second solve_jump_conditions)
+    p["reuse"] = bool((i // 24) % 2)       # blocks of 24 = all residual x EOS combinations
+    p["decoy"] = [uni(rng, 1.1, 1.6), uni(rng, 1.5, 3.0), uni(rng, 0.5, 0.9)]
     return p
 
 
@@ -416,8 +420,25 @@ def run_newton(ctx, p):
         guess = guess[:2]
     scaleF = max(abs(pl), abs(el), abs(rl))
     tolN = min(1e-2, max(1e-10, 1e-9 * scaleF))
+    reuse = bool(p.get("reuse"))
+    ic_decoy = dict(ic, density=ic["density"] * p.get("decoy", [1.3, 2.0, 0.7])[0], pressure=ic["pressure"] * p.get("decoy", [1.3, 2.0, 0.7])[1],
+                    velocity=ic["velocity"] * p.get("decoy", [1.3, 2.0, 0.7])[2])
+    if reuse and not rho_admissible(eos, ic_decoy["density"]):
+        reuse = False
     if p["via"] == "NohBlackBoxEos":
-        s = ctx.make(NohBlackBoxEos, eos, ic, geometry=ic["symmetry"] + 1)
+        if reuse:
+            # solve another problem first, then edit the stored initial conditions as the class documents and solve again
+            s = ctx.make(NohBlackBoxEos, eos, dict(ic_decoy), geometry=ic["symmetry"] + 1)
+            try:
+                s.set_new_solver_tolerance(tolN)
+                ctx.quiet(s.solve_jump_conditions)
+            except Exception:
+                ctx.count("decoy_solve_raised")
+            for k_ in ("density", "pressure", "velocity"):
+                s.initial_conditions[k_] = ic[k_]
+            ctx.count("reused_solver_objects")
+        else:
+            s = ctx.make(NohBlackBoxEos, eos, ic, geometry=ic["symmetry"] + 1)
         s.set_new_solver_tolerance(tolN)
         s.set_new_solver_initial_guess(list(guess))
         ctx.quiet(s.solve_jump_conditions)
@@ -425,7 +446,12 @@ def run_newton(ctx, p):
         P = float(s.shocked_pressure)
         its = s.solution_data["number_of_iterations"]
     else:
-        fn = ctx.quiet(getattr(R, p["resid"]), ic, eos)
+        if reuse and hasattr(getattr(R, p["resid"]), "set_new_initial_conditions"):
+            fn = ctx.quiet(getattr(R, p["resid"]), dict(ic_decoy), eos)
+            fn.set_new_initial_conditions(dict(ic))
+            ctx.count("reused_residual_objects")
+        else:
+            fn = ctx.quiet(getattr(R, p["resid"]), ic, eos)
         ns = newton_solver()
         ns.set_function(fn)
         ns.set_new_tolerance(tolN)
